@@ -24,6 +24,7 @@ import (
 	"log/slog"
 	"os"
 	"path/filepath"
+	"reflect"
 	"regexp"
 	"sort"
 	"strings"
@@ -84,7 +85,8 @@ type RenderObs struct {
 	Renderings []Rendering       `json:"renderings"`
 	Distinct   int               `json:"distinct"`
 	Diff       *Diff             `json:"diff,omitempty"`
-	MaxMap     int               `json:"max_map"` // largest unordered collection the fixture routes through
+	MaxMap     int               `json:"max_map"`           // largest unordered collection the fixture routes through
+	Mutated    []string          `json:"mutated,omitempty"` // input objects the generator wrote into
 	Bytes      int               `json:"bytes"`
 	First      map[string]string `json:"first,omitempty"` // the files of the first rendering (compared across processes)
 	Error      string            `json:"error,omitempty"`
@@ -210,12 +212,44 @@ func name(r *vh.Rng, prefix string, i int) string {
 	return fmt.Sprintf("%s%s%d", prefix, words[r.Intn(len(words))], i)
 }
 
+// nearKeySets: ids that are distinct as byte strings but that common normalisations (case folding,
+// trimming of punctuation, separator folding, numeric padding, unicode normalisation) identify.  A sort
+// whose comparator is a strict total order on the keys must tell them apart.  Sets 0..5 are valid
+// Secret keys ([-._a-zA-Z0-9]+) and are also used by the render family; 6 and 7 only by the unit family.
+var nearKeySets = [][]string{
+	{"mobile-app", "Mobile-App"},
+	{"mobile-app", "Mobile-App", "MOBILE-APP", "mobile-App", "mobile-apP"},
+	{"client-a", "client-a-", "client-a--", "client-a.", "client-a_"},
+	{"client-a", "client_a", "client.a", "clienta", "Client-A"},
+	{"client-1", "client-01", "client-001", "client-1.0", "Client-1"},
+	{"a", "A", "b", "B", "aa", "aA", "Aa", "AA", "a-", "A-", "-a", "-A", "a.", "A."},
+	{"caf\u00e9", "cafe\u0301", "cafe", "CAFE", "Caf\u00c9"},
+	{"k", "K", "\u212a", "s", "S", "\u017f"},
+}
+
+func secretDataNear(r *vh.Rng, set int) map[string][]byte {
+	ks := nearKeySets[set%len(nearKeySets)]
+	d := make(map[string][]byte, len(ks))
+	for _, k := range ks {
+		d[k] = []byte(fmt.Sprintf("key-%x", r.U64()))
+	}
+	return d
+}
+
 func secretData(r *vh.Rng, n int) map[string][]byte {
 	d := make(map[string][]byte, n)
 	for i := 0; i < n; i++ {
 		d[fmt.Sprintf("client-%s-%02d", words[r.Intn(len(words))], i)] = []byte(fmt.Sprintf("key-%x", r.U64()))
 	}
 	return d
+}
+
+// apiKeyData: p["near"] = k > 0 selects the near-duplicate key set k-1 (+ scope index) instead of generated ids
+func apiKeyData(r *vh.Rng, p map[string]int, scope int) map[string][]byte {
+	if p["near"] > 0 {
+		return secretDataNear(r, (p["near"]-1+scope)%6)
+	}
+	return secretData(r, p["keys"])
 }
 
 func apiKeyPolicy(ns, nm, secret string, i int) *conf_v1.Policy {
@@ -305,7 +339,7 @@ func buildVS(r *vh.Rng, p map[string]int) *configs.VirtualServerEx {
 		sn := fmt.Sprintf("api-key-secret-%d", i)
 		ex.Policies[ns+"/"+pn] = apiKeyPolicy(ns, pn, sn, i)
 		ex.SecretRefs[ns+"/"+sn] = &secrets.SecretReference{Secret: &api_v1.Secret{
-			ObjectMeta: meta_v1.ObjectMeta{Name: sn, Namespace: ns}, Type: secrets.SecretTypeAPIKey, Data: secretData(r, p["keys"])}}
+			ObjectMeta: meta_v1.ObjectMeta{Name: sn, Namespace: ns}, Type: secrets.SecretTypeAPIKey, Data: apiKeyData(r, p, i)}}
 		ref := conf_v1.PolicyReference{Name: pn}
 		if i == 0 {
 			vs.Spec.Policies = append(vs.Spec.Policies, ref)
@@ -629,10 +663,12 @@ func runRender(c *Case) (obs RenderObs) {
 		obs.MaxMap = mm
 		mgr.files, mgr.changed = map[string][]byte{}, false
 		before := mgr.reloads
+		snaps := snapshot(res)
 		if _, err := cnf.AddOrUpdateResources(res, false); err != nil {
 			obs.Error = err.Error()
 			return
 		}
+		obs.Mutated = addMutations(obs.Mutated, snaps)
 		names := make([]string, 0, len(mgr.files))
 		for n := range mgr.files {
 			names = append(names, n)
@@ -667,6 +703,361 @@ func runRender(c *Case) (obs RenderObs) {
 	return
 }
 
+// ---------------------------------------------------------------- inputs must not be written to
+
+type snap struct {
+	name      string
+	obj, copy any
+}
+
+func sortedKeys[V any](m map[string]V) []string {
+	ks := make([]string, 0, len(m))
+	for k := range m {
+		ks = append(ks, k)
+	}
+	sort.Strings(ks)
+	return ks
+}
+
+func snapSecrets(out []snap, refs map[string]*secrets.SecretReference) []snap {
+	for _, k := range sortedKeys(refs) {
+		if refs[k] != nil && refs[k].Secret != nil {
+			out = append(out, snap{"Secret " + k, refs[k].Secret, refs[k].Secret.DeepCopy()})
+		}
+	}
+	return out
+}
+
+func snapIngress(out []snap, ex *configs.IngressEx) []snap {
+	if ex == nil || ex.Ingress == nil {
+		return out
+	}
+	out = append(out, snap{"Ingress " + ex.Ingress.Namespace + "/" + ex.Ingress.Name, ex.Ingress, ex.Ingress.DeepCopy()})
+	return snapSecrets(out, ex.SecretRefs)
+}
+
+// snapshot takes a deep copy of every Kubernetes object handed to the generator (the objects an
+// informer store owns: Ingress, VirtualServer, VirtualServerRoute, TransportServer, Policy, Secret).
+func snapshot(res configs.ExtendedResources) []snap {
+	var out []snap
+	for _, ex := range res.IngressExes {
+		out = snapIngress(out, ex)
+	}
+	for _, m := range res.MergeableIngresses {
+		out = snapIngress(out, m.Master)
+		for _, mn := range m.Minions {
+			out = snapIngress(out, mn)
+		}
+	}
+	for _, ex := range res.VirtualServerExes {
+		out = append(out, snap{"VirtualServer " + ex.VirtualServer.Namespace + "/" + ex.VirtualServer.Name, ex.VirtualServer, ex.VirtualServer.DeepCopy()})
+		for _, r := range ex.VirtualServerRoutes {
+			out = append(out, snap{"VirtualServerRoute " + r.Namespace + "/" + r.Name, r, r.DeepCopy()})
+		}
+		for _, k := range sortedKeys(ex.Policies) {
+			out = append(out, snap{"Policy " + k, ex.Policies[k], ex.Policies[k].DeepCopy()})
+		}
+		out = snapSecrets(out, ex.SecretRefs)
+	}
+	for _, ex := range res.TransportServerExes {
+		out = append(out, snap{"TransportServer " + ex.TransportServer.Namespace + "/" + ex.TransportServer.Name, ex.TransportServer, ex.TransportServer.DeepCopy()})
+		out = snapSecrets(out, ex.SecretRefs)
+	}
+	return out
+}
+
+func describeMutation(s snap) string {
+	d := s.name + " was modified by the generator"
+	if a, ok := s.obj.(*networking.Ingress); ok {
+		b := s.copy.(*networking.Ingress)
+		var gained, lost, changed []string
+		for _, k := range sortedKeys(a.Annotations) {
+			if v, ok := b.Annotations[k]; !ok {
+				gained = append(gained, k+"="+a.Annotations[k])
+			} else if v != a.Annotations[k] {
+				changed = append(changed, k)
+			}
+		}
+		for _, k := range sortedKeys(b.Annotations) {
+			if _, ok := a.Annotations[k]; !ok {
+				lost = append(lost, k)
+			}
+		}
+		if len(gained)+len(lost)+len(changed) > 0 {
+			d += fmt.Sprintf(": annotations gained %v lost %v changed %v", gained, lost, changed)
+		}
+	}
+	return d
+}
+
+func addMutations(acc []string, snaps []snap) []string {
+	for _, s := range snaps {
+		if !reflect.DeepEqual(s.obj, s.copy) {
+			d := describeMutation(s)
+			dup := false
+			for _, x := range acc {
+				if x == d {
+					dup = true
+				}
+			}
+			if !dup && len(acc) < 8 {
+				acc = append(acc, d)
+			}
+		}
+	}
+	return acc
+}
+
+// ---------------------------------------------------------------- history family
+//
+// An informer store holds the objects; every sync wraps the SAME object pointers into fresh *Ex
+// values (as createIngressEx / createVirtualServerEx do).  Input A is rendered, one object is replaced
+// by a modified copy (as an update event does) giving input B, B is rendered by the same Configurator,
+// and B is rendered by a fresh Configurator from pristine objects.  The files for B must not depend on
+// whether A was rendered before, and no stored object may have been written to.
+
+type HistoryObs struct {
+	Scenario string            `json:"scenario"`
+	A        []FileDigest      `json:"a"`
+	BAfterA  []FileDigest      `json:"b_after_a"`
+	BAgain   []FileDigest      `json:"b_again"`
+	BFresh   []FileDigest      `json:"b_fresh"`
+	AEqualsB bool              `json:"a_equals_b"` // the modification must be visible, else the case is trivial
+	Diff     *Diff             `json:"diff,omitempty"`
+	Mutated  []string          `json:"mutated,omitempty"`
+	BFirst   map[string]string `json:"b_first,omitempty"` // files of the fresh rendering of B (compared across processes)
+	Error    string            `json:"error,omitempty"`
+	Panic    string            `json:"panic,omitempty"`
+}
+
+var historyScenarios = []struct{ name, kind string }{
+	{"mergeable-master-annotation-changed", "mergeable"},
+	{"mergeable-master-annotation-removed", "mergeable"},
+	{"mergeable-minion-annotation-changed", "mergeable"},
+	{"ingress-annotation-changed", "ingress"},
+	{"vs-policy-rate-changed", "vs"},
+	{"vs-secret-key-added", "vs"},
+	{"vs-route-removed", "vs"},
+	{"ts-upstream-changed", "ts"},
+}
+
+var inheritable = [][3]string{ // annotation, value in A, value in B
+	{"nginx.org/proxy-read-timeout", "33s", "44s"},
+	{"nginx.org/proxy-connect-timeout", "11s", "12s"},
+	{"nginx.org/client-max-body-size", "3m", "4m"},
+	{"nginx.org/lb-method", "least_conn", "ip_hash"},
+}
+
+// historyStore builds input A of a scenario (a store of objects)
+func historyStore(c *Case) configs.ExtendedResources {
+	sc := historyScenarios[c.P["scenario"]%len(historyScenarios)]
+	cc := *c
+	cc.Kind = sc.kind
+	res, _ := buildResources(&cc, 0)
+	if sc.kind == "mergeable" {
+		m := res.MergeableIngresses[0]
+		for _, a := range inheritable {
+			m.Master.Ingress.Annotations[a[0]] = a[1]
+			for _, mn := range m.Minions {
+				delete(mn.Ingress.Annotations, a[0])
+			}
+		}
+	}
+	return res
+}
+
+// historyUpdate turns input A into input B: ONE object is replaced by a modified deep copy, all other
+// objects keep their identity
+func historyUpdate(c *Case, res *configs.ExtendedResources) {
+	sc := historyScenarios[c.P["scenario"]%len(historyScenarios)]
+	switch sc.name {
+	case "mergeable-master-annotation-changed":
+		m := res.MergeableIngresses[0]
+		ing := m.Master.Ingress.DeepCopy()
+		for _, a := range inheritable {
+			ing.Annotations[a[0]] = a[2]
+		}
+		m.Master.Ingress = ing
+	case "mergeable-master-annotation-removed":
+		m := res.MergeableIngresses[0]
+		ing := m.Master.Ingress.DeepCopy()
+		for _, a := range inheritable {
+			delete(ing.Annotations, a[0])
+		}
+		m.Master.Ingress = ing
+	case "mergeable-minion-annotation-changed":
+		m := res.MergeableIngresses[0]
+		ing := m.Minions[0].Ingress.DeepCopy()
+		ing.Annotations["nginx.org/proxy-send-timeout"] = "55s"
+		m.Minions[0].Ingress = ing
+	case "ingress-annotation-changed":
+		ex := res.IngressExes[0]
+		ing := ex.Ingress.DeepCopy()
+		ing.Annotations["nginx.org/proxy-read-timeout"] = "44s"
+		ing.Annotations["nginx.org/proxy-hide-headers"] = "X-One,X-Two"
+		ex.Ingress = ing
+	case "vs-policy-rate-changed":
+		ex := res.VirtualServerExes[0]
+		for _, k := range sortedKeys(ex.Policies) {
+			if ex.Policies[k].Spec.RateLimit != nil {
+				pol := ex.Policies[k].DeepCopy()
+				pol.Spec.RateLimit.Rate = "77r/s"
+				pol.Spec.RateLimit.ZoneSize = "7M"
+				ex.Policies[k] = pol
+				break
+			}
+		}
+	case "vs-secret-key-added":
+		ex := res.VirtualServerExes[0]
+		for _, k := range sortedKeys(ex.SecretRefs) {
+			if ex.SecretRefs[k].Secret != nil && ex.SecretRefs[k].Secret.Type == secrets.SecretTypeAPIKey {
+				sec := ex.SecretRefs[k].Secret.DeepCopy()
+				sec.Data["client-added"] = []byte("key-added")
+				ref := *ex.SecretRefs[k]
+				ref.Secret = sec
+				ex.SecretRefs[k] = &ref
+				break
+			}
+		}
+	case "vs-route-removed":
+		ex := res.VirtualServerExes[0]
+		vs := ex.VirtualServer.DeepCopy()
+		vs.Spec.Routes = vs.Spec.Routes[1:]
+		ex.VirtualServer = vs
+	case "ts-upstream-changed":
+		ex := res.TransportServerExes[0]
+		ts := ex.TransportServer.DeepCopy()
+		mf := 7
+		ts.Spec.Upstreams[0].MaxFails = &mf
+		ts.Spec.Upstreams[0].FailTimeout = "21s"
+		ex.TransportServer = ts
+	}
+}
+
+// syncWrappers: fresh *Ex wrappers around the stored objects (the generator may replace the
+// pointers inside the wrappers; the controller builds new wrappers for every sync)
+func syncWrappers(res configs.ExtendedResources) configs.ExtendedResources {
+	var out configs.ExtendedResources
+	for _, ex := range res.IngressExes {
+		c := *ex
+		out.IngressExes = append(out.IngressExes, &c)
+	}
+	for _, m := range res.MergeableIngresses {
+		ma := *m.Master
+		mm := &configs.MergeableIngresses{Master: &ma}
+		for _, mn := range m.Minions {
+			c := *mn
+			mm.Minions = append(mm.Minions, &c)
+		}
+		out.MergeableIngresses = append(out.MergeableIngresses, mm)
+	}
+	for _, ex := range res.VirtualServerExes {
+		c := *ex
+		out.VirtualServerExes = append(out.VirtualServerExes, &c)
+	}
+	for _, ex := range res.TransportServerExes {
+		c := *ex
+		out.TransportServerExes = append(out.TransportServerExes, &c)
+	}
+	return out
+}
+
+func digests(files map[string][]byte) []FileDigest {
+	var out []FileDigest
+	for _, n := range sortedKeys(files) {
+		out = append(out, FileDigest{Name: n, Sha: shaHex(files[n])})
+	}
+	return out
+}
+
+func sameDigests(a, b []FileDigest) bool {
+	if len(a) != len(b) {
+		return false
+	}
+	for i := range a {
+		if a[i] != b[i] {
+			return false
+		}
+	}
+	return true
+}
+
+func runHistory(c *Case) (obs HistoryObs) {
+	defer func() {
+		if e := recover(); e != nil {
+			obs.Panic = fmt.Sprint(e)
+		}
+	}()
+	obs.Scenario = historyScenarios[c.P["scenario"]%len(historyScenarios)].name
+	render := func(cnf *configs.Configurator, mgr *recMgr, store configs.ExtendedResources) (map[string][]byte, error) {
+		mgr.files, mgr.changed = map[string][]byte{}, false
+		snaps := snapshot(store)
+		if _, err := cnf.AddOrUpdateResources(syncWrappers(store), false); err != nil {
+			return nil, err
+		}
+		obs.Mutated = addMutations(obs.Mutated, snaps)
+		return mgr.files, nil
+	}
+	dir1 := filepath.Join(workDir, fmt.Sprintf("c09tmp-%d-%d-h1", os.Getpid(), c.ID))
+	dir2 := filepath.Join(workDir, fmt.Sprintf("c09tmp-%d-%d-h2", os.Getpid(), c.ID))
+	defer os.RemoveAll(dir1)
+	defer os.RemoveAll(dir2)
+	cnf1, mgr1, err := newConfigurator(dir1, c.Plus)
+	if err != nil {
+		obs.Error = err.Error()
+		return
+	}
+	// long-running process: A, then B, then B again
+	store := historyStore(c)
+	fa, err := render(cnf1, mgr1, store)
+	if err != nil {
+		obs.Error = err.Error()
+		return
+	}
+	historyUpdate(c, &store)
+	fb, err := render(cnf1, mgr1, store)
+	if err != nil {
+		obs.Error = err.Error()
+		return
+	}
+	fb2, err := render(cnf1, mgr1, store)
+	if err != nil {
+		obs.Error = err.Error()
+		return
+	}
+	// freshly started process: pristine objects, B only
+	cnf2, mgr2, err := newConfigurator(dir2, c.Plus)
+	if err != nil {
+		obs.Error = err.Error()
+		return
+	}
+	pristine := historyStore(c)
+	historyUpdate(c, &pristine)
+	ff, err := render(cnf2, mgr2, pristine)
+	if err != nil {
+		obs.Error = err.Error()
+		return
+	}
+	obs.A, obs.BAfterA, obs.BAgain, obs.BFresh = digests(fa), digests(fb), digests(fb2), digests(ff)
+	obs.AEqualsB = sameDigests(obs.A, obs.BAfterA) && sameDigests(obs.A, obs.BFresh)
+	obs.BFirst = map[string]string{}
+	for n, b := range ff {
+		obs.BFirst[n] = string(b)
+	}
+	for _, other := range []map[string][]byte{fb, fb2} {
+		if obs.Diff != nil {
+			break
+		}
+		for _, n := range sortedKeys(ff) {
+			if string(ff[n]) != string(other[n]) {
+				obs.Diff = firstDiff(1, n, ff[n], other[n])
+				break
+			}
+		}
+	}
+	return
+}
+
 // ---------------------------------------------------------------- unit family
 
 func sortedBindings(m [][2]string) [][2]string {
@@ -687,6 +1078,10 @@ func runUnit(c *Case) (obs UnitObs) {
 	switch c.Kind {
 	case "generateAPIKeyClients":
 		data := secretData(r, n)
+		if c.P["near"] > 0 {
+			data = secretDataNear(r, c.P["near"]-1)
+			n = len(data)
+		}
 		keys := make([]string, 0, n)
 		for k := range data {
 			keys = append(keys, k)
@@ -708,6 +1103,9 @@ func runUnit(c *Case) (obs UnitObs) {
 		var names []string
 		for i := 0; i < n; i++ {
 			names = append(names, fmt.Sprintf("default-cafe-%s-%d", words[r.Intn(len(words))], i))
+		}
+		if c.P["near"] > 0 {
+			names = append([]string(nil), nearKeySets[(c.P["near"]-1)%len(nearKeySets)]...)
 		}
 		sort.Strings(names)
 		for _, k := range names {
@@ -864,6 +1262,9 @@ func genCases(a vh.Args) []Case {
 	add("render", "mergeable", true, map[string]int{"svcs": 3, "eps": 1, "ann": 10, "minions": 3, "deny": 1, "hc": 1}, rounds) //
 	add("render", "ts", false, map[string]int{"n": 1, "ups": 5, "eps": 3}, rounds)                                             // TS with several upstreams
 	add("render", "ts", true, map[string]int{"n": 5, "ups": 2, "eps": 1, "pt": 1}, rounds)                                     // TLS passthrough host map with 5 entries
+	for k := 1; k <= 6; k++ {                                                                                                  // API-key Secrets whose client ids collide under case folding / trimming / separator folding
+		add("render", "vs", k%2 == 0, map[string]int{"ups": 2, "akp": 1 + k%3, "near": k}, rounds)
+	}
 	// generated variations
 	nGen := a.N
 	for i := 0; i < nGen; i++ {
@@ -894,11 +1295,29 @@ func genCases(a vh.Args) []Case {
 			add("unit", k, false, map[string]int{"n": n}, urounds)
 		}
 	}
+	for k := 1; k <= len(nearKeySets); k++ { // the real comparator must distinguish near-duplicate keys
+		add("unit", "generateAPIKeyClients", false, map[string]int{"n": len(nearKeySets[k-1]), "near": k}, urounds)
+		add("unit", "upstreamMapToSlice", false, map[string]int{"n": len(nearKeySets[k-1]), "near": k}, urounds)
+	}
 	for _, n := range []int{2, 4, 5} {
 		add("unit", "GenerateVirtualServerConfig", true, map[string]int{"n": n}, urounds)
 	}
 	for _, n := range []int{2, 3, 4} {
 		add("unit", "generatePolicies", true, map[string]int{"n": n}, urounds)
+	}
+	// history family: every scenario on both template sets, plus generated sizes
+	for sc := range historyScenarios {
+		for _, plus := range []bool{false, true} {
+			add("history", historyScenarios[sc].kind, plus, map[string]int{"scenario": sc, "svcs": 3, "eps": 1, "ann": 8, "minions": 3, "deny": 1,
+				"ups": 3, "keys": 3, "akp": 2, "claims": 2, "tiers": 2, "n": 2, "hdr": 1}, 1)
+		}
+	}
+	for i := 0; i < a.N/4; i++ {
+		r := rng.Fork(uint64(5000 + i))
+		sc := r.Intn(len(historyScenarios))
+		add("history", historyScenarios[sc].kind, r.Bool(), map[string]int{"scenario": sc, "svcs": 2 + r.Intn(3), "eps": r.Intn(2), "ann": 2 + r.Intn(12),
+			"minions": 1 + r.Intn(4), "deny": r.Intn(2), "hc": r.Intn(2), "ups": 2 + r.Intn(3), "keys": 1 + r.Intn(5), "akp": 1 + r.Intn(3),
+			"claims": 1 + r.Intn(2), "tiers": 2, "n": 1 + r.Intn(3), "hdr": r.Intn(3), "near": r.Intn(4)}, 1)
 	}
 	return cs
 }
@@ -942,6 +1361,8 @@ func main() {
 			c.Obs = runRender(c)
 		case "unit":
 			c.Obs = runUnit(c)
+		case "history":
+			c.Obs = runHistory(c)
 		default:
 			c.Obs = map[string]string{"error": "unknown family " + c.Fam}
 		}
